@@ -1,4 +1,4 @@
-import FimVerif.Proofs.Lemmas.C14Any
+import FimVerif.Proofs.Lemmas.C14Update
 import FimVerif.Proofs.Lemmas.C14Frame
 import FimVerif.Generated.CbmCfg
 /-!
@@ -536,6 +536,62 @@ example : exStore.KeysOK ∧
         [.merge "adm-site" [], .merge "adm-net" ["port"], .snapshot, .unmerge "adm-site", .rollback 0]
      (w.s.view "CBM").nodes.length = 3 ∧ w.s.view "adm-net" = exNet.g ∧ w.s.view "adm-site" = exSite.g) := by
   refine ⟨load_keysOK (load_keysOK Store.empty_keysOK exSite exSite_WF.nodup) exNet exNet_WF.nodup, by decide⟩
+
+/-! ## the source models move on between the calls (`unmerge_adm` takes a graph id, not a model) -/
+
+/-- **The invariant over all histories in which the source models are updated, reloaded under their id or deleted between
+the broker's calls** (`UOp.update`: the graph stored under the id is from now on the version given; `merge` takes the newest
+version, the other calls do not look at the sources): the combined model and every snapshot are tracked by a list of
+versions with distinct ids - the versions that were merged, whatever the store holds under their ids now. -/
+theorem history_invariant_with_source_updates (srcs : List Adm) (ops : List UOp) (hok : UHistOk (World.init srcs) ops) :
+    WInv (urun (World.init srcs) ops) :=
+  WInv.urun ops (WInv.init srcs) hok
+
+/-- **Unmerge after the source has moved on**: in any state satisfying the invariant (every state reachable by a history
+with updates, theorem above) the source `a.id` is replaced by any other version `a` (or deleted: no elements); unmerging any
+id then does exactly what it does without the update (`unmerge_removes_exactly`): it does not raise, takes out what only the
+MERGED version of that id contributed, and leaves a combined model tracked by the remaining live versions. -/
+theorem unmerge_after_source_update {w : World} (h : WInv w) (hne : w.cbm.nodes ≠ []) (a : Adm) (gid : String) :
+    ∃ live g', Tracks w.srcs w.cbm live ∧ step (w.update a) (.unmerge gid) = (none, { w.update a with cbm := g' }) ∧
+      (step w (.unmerge gid)).2.cbm = g' ∧ UnmergeStep w.cbm gid g' ∧
+      Tracks (w.update a).srcs g' (live.filter (fun b => b.id != gid)) := by
+  obtain ⟨⟨live, t⟩, _⟩ := h
+  obtain ⟨g', hu, hs, t'⟩ := unmerge_removes_exactly t hne gid
+  refine ⟨live, g', t, ?_, ?_, hs, t'.mono (fun b hb => List.mem_cons_of_mem _ hb)⟩
+  · show ((unmerge w.cbm gid).1, { w.update a with cbm := (unmerge w.cbm gid).2 }) = _
+    rw [hu]
+  · show (unmerge w.cbm gid).2 = g'
+    rw [hu]
+
+/-- Tie to the source: the result of `unmerge_adm(graph_id)` on the code does not depend on what the store holds under that
+id when it is called (behavioural probe of gen/cbmcfg.py, regenerated every run) - as in the model, where `unmerge` has no
+access to the sources (`unmerge_ignores_sources`). -/
+theorem unmerge_reads_only_the_combined_model : FimVerif.Gen.CbmCfg.unmergeIgnoresSourceModel = true ∧
+    ∀ (w : World) (srcs' : List Adm) (gid : String),
+      (step { w with srcs := srcs' } (.unmerge gid)).1 = (step w (.unmerge gid)).1 ∧
+      (step { w with srcs := srcs' } (.unmerge gid)).2.cbm = (step w (.unmerge gid)).2.cbm :=
+  ⟨by decide, unmerge_ignores_sources⟩
+
+/-- the updated advertisement of the site: the switch was swapped, the port stays -/
+def exSite2 : Adm := ⟨"adm-site", ⟨[⟨"sw-2", [("Class", "NetworkNode")], [], .absent, .dict [("primary", "cap2")]⟩,
+                                     ⟨"port", [("StitchNode", "true"), ("Model", "site")], [], .absent, .absent⟩],
+                                    [⟨"sw-2", "port", [("Class", "connects")]⟩]⟩⟩
+
+/-- non-vacuity: merge site and network, the site's advertisement is replaced under its id, the old one is unmerged (its
+switch goes although the stored model no longer has it), the new one merged; then the site model is deleted and unmerged -/
+def exUpdateHistory : List UOp :=
+  [.op (.merge "adm-site"), .op (.merge "adm-net"), .op .snapshot, .update exSite2, .op (.unmerge "adm-site"), .op (.merge "adm-site"),
+   .update ⟨"adm-site", ⟨[], []⟩⟩, .op (.unmerge "adm-site"), .op (.merge "adm-site")]
+
+example : UHistOk (World.init [exSite, exNet]) exUpdateHistory ∧
+    (urun (World.init [exSite, exNet]) (exUpdateHistory.take 3)).cbm.has "sw" = true ∧
+    (urun (World.init [exSite, exNet]) (exUpdateHistory.take 5)).cbm.has "sw" = false ∧
+    (urun (World.init [exSite, exNet]) (exUpdateHistory.take 5)).cbm.provOf "port" = ["adm-net"] ∧
+    (urun (World.init [exSite, exNet]) (exUpdateHistory.take 6)).cbm.has "sw-2" = true ∧
+    (urun (World.init [exSite, exNet]) (exUpdateHistory.take 6)).cbm.cdelOf "sw-2" = .dict [("adm-site", "cap2")] ∧
+    (urun (World.init [exSite, exNet]) exUpdateHistory).cbm.has "sw-2" = false ∧
+    (urun (World.init [exSite, exNet]) exUpdateHistory).cbm.provOf "port" = ["adm-net"] := by
+  decide
 
 /-- The abstract world of the theorems above keeps the sources by construction; the content of the clause is in
 `sources_untouched_by_every_history` (model of the store) and in the correspondence, which compares the real sources'
